@@ -39,12 +39,12 @@ func init() {
 			"oracle over the callback log and the callers' call/return timestamps (monotonic bracketing only, never a deadline); distinct_nontrivial = distinct (interval, callbacks, phase pattern) cases with at least one accepted and one further call",
 		Required:    []string{"calls.accepted", "calls.rejected", "nothing_to_invalidate", "spacing.pairs", "must_accept.checked", "burst.cases", "chain.cases", "spacing.tightened_by_previous_run", "registered_during_run.calls_checked"},
 		Assumptions: []string{"monotonic clock readings of time.Now() are consistent across goroutines"},
-		Timeout:     func(string) time.Duration { return 20 * time.Minute },
+		Timeout:     func(string) time.Duration { return 45 * time.Minute },
 	})
 }
 
 func runC17(b *Batch) {
-	n := b.Pick(1600, 40000) / b.NBatches
+	n := b.Pick(1600, 160000) / b.NBatches
 	// cases sleep; run several concurrently inside the child
 	var wg sync.WaitGroup
 	sem := make(chan struct{}, 8)
